@@ -131,7 +131,7 @@ def one_case(args):
     write_file(path, data)
     argv = ([] if use_stdin else [path]) + mode + (R.filter_args(*flt) if flt else []) + (["-m"] if rng.random() < 0.2 or scale else [])
     to_file = mode == [] and rng.random() < 0.5
-    r = obs.run(exe, argv, stdin_path=path if use_stdin else None, workdir=wd, stats=fmt, out_name=to_file, tag="c%d" % case)
+    r = obs.run(exe, argv, stdin_path=path if use_stdin else None, workdir=wd, stats=fmt, out_name=to_file, tag="c%d" % case, out_limit=(1 << 30) if scale else None)
     os.unlink(path)
     desc = "%s stream, %d packets, mode %s, filter %s, %s, stats %s" % ("G-conf" if conf else "G-frame (scale case)" if scale else "G-frame", len(pkts), " ".join(mode) or "writer", flt,
                                                                           "pipe" if use_stdin else "file", fmt)
